@@ -28,17 +28,26 @@
                  markers and paragraph blocks ([esim]: a comment after any word, blanks and
                  comments appended at the end of the block).
 
-   NOT proved: the event-level invariance of a block comment or a trailing comment inside a
-   step block that contains components (name, alias, note positions; `@salt[-c-] and`), and the
-   passage from the block-level [esim] theorems to documents (block splitting under [esim]).
-   These are decided on every run by the metamorphic monitor of checks/c17.py on the
-   implementation, the model being held to the implementation on the edited texts by the
-   L-lex/L-ev correspondence. *)
+                 A block comment directly after a word, before a blank, outside braces: a
+                 relational Hoare logic (Proofs/EditIns*.v, [jsim], [HJ]) through every function,
+                 components included (the two runs are briefly out of step after a one-word
+                 component), block splitting, and documents: [C17_mid_comment_events(_fm)].
+
+   [C17_full_statement] as first written (ALL diagnostics compared) is REFUTED
+   ([C17_full_statement_refuted], witness "Add @\nx": a lone marker at a line end draws a warning
+   that a trailing comment or trailing blanks remove; same on the implementation).  The statement
+   of the property (recipe and validity) is [C17_full_statement_v].
+   NOT proved: the trailing ` --c` / trailing blanks at document level and inside step blocks with
+   components (block level only: metadata line, section line, marker-free step, paragraph), the
+   blank-on-both-sides comment variant, comments after a number token.  These are decided on every
+   run by the metamorphic monitor of checks/c17.py on the implementation, the model being held to
+   the implementation on the edited texts by the L-lex/L-ev correspondence. *)
 From Coq Require Import Permutation.
 From CL Require Import Base.StrLemmas Model.Lexer Model.PText Model.CommentMask Model.Parser Model.Edits
   Proofs.LexerProofs Proofs.MaskProofs Proofs.MaskGen Proofs.EditProofs Proofs.EditParserProofs Proofs.EditLink
   Proofs.ParserTotal Proofs.EditSimDefs Proofs.EditSimBlock Proofs.EditSimDoc Proofs.EditSimAll Proofs.EditSimCrlf Proofs.EditSimText Proofs.EditSimExtra Gen.CharClass.
 From CL Require Proofs.EditSimLine.
+From CL Require Import Proofs.EditInsDefs Proofs.EditInsStep Proofs.EditInsAll.
 
 (* ---------------------------------------------------------------- lexer level *)
 
@@ -480,12 +489,91 @@ Proof.
 Qed.
 Print Assumptions C17_extra_line_events_fm.
 
+(* ---------------------------------------------------------------- a block comment after a word *)
+(* [jsim]: the right token list is the left one with block comment tokens inserted directly after
+   a word token and directly before a blank token, outside `{...}` (token-level bracket state).
+   The relational Hoare logic of Proofs/EditIns*.v: [HJ P m1 m2 Q]; [St jany] = the two runs are
+   in step, [St anyR] = in step or the left run before the blank and the right one before the
+   inserted comment; [CP erel anyR] = both fail (events related) or both succeed with equal events. *)
+Theorem C17_component_name_blind :
+  forall cfg,
+    HJ (St jany) (ingredient_p cfg) (ingredient_p cfg) (CP erel anyR)
+    /\ HJ (St jany) (cookware_p cfg) (cookware_p cfg) (CP erel anyR)
+    /\ HJ (St jany) (timer_p cfg) (timer_p cfg) (CP erel anyR).
+Proof. exact components_jsim. Qed.
+Print Assumptions C17_component_name_blind.
+
+(* any block, components included: name, alias, note positions, after a one-word component, step
+   text around components, metadata keys and values, section names, paragraphs *)
+Theorem C17_step_block_blind :
+  forall cfg blk1 blk2 evs1 evs2 old,
+    jany blk1 blk2 -> Forall2 erel evs1 evs2 ->
+    OR (Forall2 erel) (run_block blk1 evs1 (parse_block cfg old)) (run_block blk2 evs2 (parse_block cfg old)).
+Proof. exact block_jsim. Qed.
+Print Assumptions C17_step_block_blind.
+
+(* block splitting and the block loop (the two token lists have different lengths: any two fuels) *)
+Theorem C17_blocks_jsim :
+  forall cfg f1 f2 ts1 ts2 old evs1 evs2,
+    jany ts1 ts2 -> Forall2 erel evs1 evs2 ->
+    OR (Forall2 erel) (blocks_loop cfg f1 ts1 old evs1) (blocks_loop cfg f2 ts2 old evs2).
+Proof. exact blocks_jsim. Qed.
+Print Assumptions C17_blocks_jsim.
+
+(* document level: [a | b] is a token boundary, the last token of [a] is a word, the first token
+   of [b] a blank, and the boundary is not inside braces ([mode_after MOut p = MOut]).  These are
+   the places where the monitor puts the unspaced comment: step text, paragraph text, metadata
+   keys and values, section names, component names, aliases, notes, after a one-word component
+   (the monitor also uses positions after a number token; those are not covered).  The hypothesis
+   on the edited source is needed: a form feed is a word character for the lexer and blank space
+   for the fence test, so "---<FF> " is a fence line with a word in it. *)
+Theorem C17_mid_comment_events :
+  forall cfg a b c p wd ws tb',
+    p_strict_escape cfg = false -> no_close c = true ->
+    parse_frontmatter cfg (a ++ b) = None -> parse_frontmatter cfg (a ++ block_comment_text c ++ b) = None ->
+    lex_at U a 0 = Some (p ++ [wd]) -> lex_at U b (blen a) = Some (ws :: tb') ->
+    lex_at U (a ++ b) 0 = Some ((p ++ [wd]) ++ ws :: tb') ->
+    kind wd = KWord -> kind ws = KWs -> mode_after MOut p = MOut ->
+    ev_equiv (events U cfg (a ++ block_comment_text c ++ b)) (events U cfg (a ++ b)).
+Proof.
+  intros cfg a b c p wd ws tb' Hs Hc F1 F2 La Lb Lab Kw Ks Hm. apply OR_same_equiv; [exact Hs|].
+  apply (mid_comment_events_all cfg U gen_special_breaks gen_eol_breaks a b c p wd ws tb'); assumption.
+Qed.
+Print Assumptions C17_mid_comment_events.
+
+Theorem C17_mid_comment_events_fm :
+  forall cfg s fm a b c p wd ws tb',
+    p_strict_escape cfg = false -> no_close c = true ->
+    parse_frontmatter cfg s = Some fm -> cook_text fm = a ++ b -> a ++ b <> [] ->
+    lex_at U a (cook_off fm) = Some (p ++ [wd]) -> lex_at U b (cook_off fm + blen a) = Some (ws :: tb') ->
+    lex_at U (a ++ b) (cook_off fm) = Some ((p ++ [wd]) ++ ws :: tb') ->
+    kind wd = KWord -> kind ws = KWs -> mode_after MOut p = MOut ->
+    ev_equiv (events U cfg (take_bytes s (cook_off fm) ++ a ++ block_comment_text c ++ b)) (events U cfg s).
+Proof.
+  intros cfg s fm a b c p wd ws tb' Hs Hc F C Hne La Lb Lab Kw Ks Hm. apply OR_same_equiv; [exact Hs|].
+  apply (mid_comment_events_fm_all cfg U gen_special_breaks gen_eol_breaks s fm a b c p wd ws tb'); assumption.
+Qed.
+Print Assumptions C17_mid_comment_events_fm.
+
+(* the hypotheses are satisfiable: "Add @salt and" with the comment after "salt" *)
+Example C17_mid_comment_hypotheses_satisfiable :
+  exists p wd ws tb',
+    lex_at U [65; 100; 100; 32; 64; 115; 97; 108; 116] 0 = Some (p ++ [wd])
+    /\ lex_at U [32; 97; 110; 100] 9 = Some (ws :: tb')
+    /\ kind wd = KWord /\ kind ws = KWs /\ mode_after MOut p = MOut.
+Proof.
+  eexists [_; _; _], _, _, _. split; [vm_compute; reflexivity|]. split; [vm_compute; reflexivity|].
+  repeat split.
+Qed.
+
 (* the part of [C17_full_statement] that is a theorem, at document level, in one statement *)
 Theorem C17_edit_invariant_partial :
   forall cfg, p_strict_escape cfg = false ->
+    (* line endings *)
     (forall s, no_backslash s = true -> no_lone_cr s = true ->
        ev_equiv (events U cfg (crlf s)) (events U cfg s))
-    /\ (forall a l b ta tl tb,
+    /\ (* a blank or comment-only line between blocks *)
+       (forall a l b ta tl tb,
          parse_frontmatter cfg (a ++ b) = None ->
          Forall (fun x => is_fence x = false) (lines_inclusive l) ->
          lex_at U a 0 = Some ta -> lex_at U l 0 = Some tl -> lex_at U b (blen a) = Some tb ->
@@ -498,12 +586,29 @@ Theorem C17_edit_invariant_partial :
          lex_at U b (cook_off fm + blen a) = Some tb ->
          (ta = [] \/ exists p nl, ta = p ++ [nl] /\ kind nl = KNewline) -> blank_line tl ->
          reach (ta ++ tb) tb ->
-         ev_equiv (events U cfg (take_bytes s (cook_off fm) ++ a ++ l ++ b)) (events U cfg s)).
+         ev_equiv (events U cfg (take_bytes s (cook_off fm) ++ a ++ l ++ b)) (events U cfg s))
+    /\ (* a block comment directly after a word, before a blank, outside braces *)
+       (forall a b c p wd ws tb',
+         no_close c = true ->
+         parse_frontmatter cfg (a ++ b) = None -> parse_frontmatter cfg (a ++ block_comment_text c ++ b) = None ->
+         lex_at U a 0 = Some (p ++ [wd]) -> lex_at U b (blen a) = Some (ws :: tb') ->
+         lex_at U (a ++ b) 0 = Some ((p ++ [wd]) ++ ws :: tb') ->
+         kind wd = KWord -> kind ws = KWs -> mode_after MOut p = MOut ->
+         ev_equiv (events U cfg (a ++ block_comment_text c ++ b)) (events U cfg (a ++ b)))
+    /\ (forall s fm a b c p wd ws tb',
+         no_close c = true ->
+         parse_frontmatter cfg s = Some fm -> cook_text fm = a ++ b -> a ++ b <> [] ->
+         lex_at U a (cook_off fm) = Some (p ++ [wd]) -> lex_at U b (cook_off fm + blen a) = Some (ws :: tb') ->
+         lex_at U (a ++ b) (cook_off fm) = Some ((p ++ [wd]) ++ ws :: tb') ->
+         kind wd = KWord -> kind ws = KWs -> mode_after MOut p = MOut ->
+         ev_equiv (events U cfg (take_bytes s (cook_off fm) ++ a ++ block_comment_text c ++ b)) (events U cfg s)).
 Proof.
-  intros cfg Hc. split; [|split].
+  intros cfg Hc. split; [|split; [|split; [|split]]].
   - intros s. apply C17_crlf_events. exact Hc.
   - intros a l b ta tl tb. apply C17_extra_line_events. exact Hc.
   - intros s fm a l b ta tl tb. apply C17_extra_line_events_fm. exact Hc.
+  - intros a b c p wd ws tb' Hn. apply C17_mid_comment_events; assumption.
+  - intros s fm a b c p wd ws tb' Hn. apply C17_mid_comment_events_fm; assumption.
 Qed.
 Print Assumptions C17_edit_invariant_partial.
 
@@ -585,3 +690,95 @@ Definition C17_full_statement : Prop :=
        (reach (ta ++ tb) tb -> (ta = [] \/ exists p nl, ta = p ++ [nl] /\ kind nl = KNewline) ->
         forall l tl, lex_at U l 0 = Some tl -> blank_line tl ->
           ev_equiv (events U cfg (pre ++ a ++ l ++ b)) (events U cfg s))).
+
+(* ---------------------------------------------------------------- the full statement is too strong *)
+(* [C17_full_statement] compares ALL diagnostics.  That is false on the model, and on the
+   implementation (replayed through harness/src/bin/recipe.rs): a lone component marker at the end
+   of a line, "Add @\nx", draws the warning "invalid single word name" (block_parser: the token
+   after the marker is not a blank); with a trailing comment or trailing blanks, "Add @ --c\nx",
+   the marker is followed by a blank and the warning is not issued.  Recipe and validity are the
+   same.  The property statement speaks of the recipe and its validity only: [ev_equiv_v] /
+   [C17_full_statement_v] below compare the content and whether there is an ERROR. *)
+Definition cfg_plain : pcfg :=
+  {| p_ext := 0; p_debug := true; p_strict_escape := false; p_note_label_old := false; p_fm_anywhere := false |}.
+
+Definition wit_ta : list tok :=
+  Eval vm_compute in match lex_at U [65; 100; 100; 32; 64] 0 with Some t => t | None => [] end.
+Definition wit_tb : list tok :=
+  Eval vm_compute in match lex_at U [10; 120] 5 with Some t => t | None => [] end.
+Definition wit_src : str := [65; 100; 100; 32; 64; 10; 120].
+Definition wit_edited : str := [] ++ [65; 100; 100; 32; 64] ++ (32 :: line_comment_text [99]) ++ [10; 120].
+Definition wit_e1 : outcome (list pevent) := Eval vm_compute in events U cfg_plain wit_edited.
+Definition wit_e2 : outcome (list pevent) := Eval vm_compute in events U cfg_plain wit_src.
+Lemma wit_e1_eq : events U cfg_plain wit_edited = wit_e1. Proof. vm_compute. reflexivity. Qed.
+Lemma wit_e2_eq : events U cfg_plain wit_src = wit_e2. Proof. vm_compute. reflexivity. Qed.
+Lemma wit_false : ev_equiv (events U cfg_plain wit_edited) (events U cfg_plain wit_src) -> False.
+Proof.
+  rewrite wit_e1_eq, wit_e2_eq. unfold wit_e1, wit_e2, ev_equiv. intros [_ P].
+  assert (D1 : diags_of (match wit_e1 with Done e => e | _ => [] end) = []) by (vm_compute; reflexivity).
+  assert (D2 : diags_of (match wit_e2 with Done e => e | _ => [] end) = [PDiag false 1]) by (vm_compute; reflexivity).
+  unfold wit_e1 in D1. unfold wit_e2 in D2. rewrite D1, D2 in P. apply Permutation_nil in P. discriminate.
+Qed.
+
+Theorem C17_full_statement_refuted : ~ C17_full_statement.
+Proof.
+  intro H. destruct (H cfg_plain wit_src) as [_ H2].
+  assert (W : well_formed cfg_plain wit_src).
+  { exists (match wit_e2 with Done e => e | _ => [] end). split; [exact wit_e2_eq|].
+    unfold wit_e2. repeat (constructor; [first [exact I | reflexivity]|]). constructor. }
+  destruct (H2 W [] [65; 100; 100; 32; 64] [10; 120] wit_ta wit_tb) as [Hline _];
+    [vm_compute; reflexivity | vm_compute; reflexivity | vm_compute; reflexivity | vm_compute; reflexivity
+    | vm_compute; reflexivity |].
+  assert (Le : line_end wit_tb) by (right; eexists; eexists; split; reflexivity).
+  destruct (Hline Le [99] [32] eq_refl eq_refl) as [E _].
+  exact (wit_false E).
+Qed.
+Print Assumptions C17_full_statement_refuted.
+
+Definition has_error (evs : list pevent) : bool :=
+  existsb (fun e => match e with EvDiag d => d_err d | _ => false end) evs.
+Definition ev_equiv_v (o1 o2 : outcome (list pevent)) : Prop :=
+  match o1, o2 with
+  | Done e1, Done e2 => observed e1 = observed e2 /\ has_error e1 = has_error e2
+  | Panic _, Panic _ => True
+  | _, _ => False
+  end.
+
+Lemma has_error_proj e : has_error e = existsb (fun x => match x with PDiag b _ => b | _ => false end) (map proj e).
+Proof. induction e as [|x r IH]; [reflexivity|]. cbn [has_error existsb map]. fold (has_error r). rewrite IH. destruct x; reflexivity. Qed.
+
+(* every event-level theorem above gives the weaker relation too *)
+Theorem C17_same_events_valid :
+  forall e1 e2, same_events e1 e2 -> ev_equiv_v (Done e1) (Done e2).
+Proof.
+  intros e1 e2 H. unfold same_events in H. split.
+  - unfold observed. rewrite H. reflexivity.
+  - rewrite !has_error_proj, H. reflexivity.
+Qed.
+Print Assumptions C17_same_events_valid.
+
+(* the statement of the property on the model: as [C17_full_statement], comparing the content and
+   the presence of an error.  Proved parts: the first conjunct ([C17_crlf_events]), the block
+   comment after a word token ([C17_mid_comment_events]: [between_words] with a word, not a
+   number), extra lines ([C17_extra_line_events(_fm)], inserted line not "---"); open: the
+   trailing comment / trailing blanks conjunct. *)
+Definition C17_full_statement_v : Prop :=
+  forall (cfg : pcfg) (s : str),
+    (no_backslash s = true -> no_lone_cr s = true -> ev_equiv_v (events U cfg (crlf s)) (events U cfg s))
+    /\
+    (well_formed cfg s ->
+     forall pre a b ta tb,
+       body_split cfg s = (pre, a ++ b) ->
+       lex_at U a 0 = Some ta -> lex_at U b (blen a) = Some tb -> lex_at U (a ++ b) 0 = Some (ta ++ tb) ->
+       last_open_ended ta = false ->
+       (line_end tb -> forall c w, no_newline c = true -> forallb is_blank w = true ->
+          ev_equiv_v (events U cfg (pre ++ a ++ (32 :: line_comment_text c) ++ b)) (events U cfg s)
+          /\ ev_equiv_v (events U cfg (pre ++ a ++ w ++ b)) (events U cfg s))
+       /\
+       (between_words ta tb -> forall c, no_close c = true ->
+          ev_equiv_v (events U cfg (pre ++ a ++ block_comment_text c ++ b)) (events U cfg s))
+       /\
+       (reach (ta ++ tb) tb -> (ta = [] \/ exists p nl, ta = p ++ [nl] /\ kind nl = KNewline) ->
+        forall l tl, lex_at U l 0 = Some tl -> blank_line tl ->
+          Forall (fun x => is_fence x = false) (lines_inclusive l) ->
+          ev_equiv_v (events U cfg (pre ++ a ++ l ++ b)) (events U cfg s))).
